@@ -17,8 +17,9 @@ effects (target key, operator, abstract value) for the rule to compare with the 
 from __future__ import annotations
 
 import ast
+import collections
 from fractions import Fraction
-from typing import Any, Callable, Dict, List, Optional, Tuple
+from typing import Any, Callable, Dict, List, Optional, Set, Tuple
 
 
 class Unsupported(Exception):
@@ -217,6 +218,23 @@ class OnceIter:
         return iter(self.abs_iter())
 
 
+class LazyIter(OnceIter):
+    """A generator expression: its outermost iterable is evaluated when the expression is, everything else when the
+    generator is first consumed - free variables are read then (late binding)."""
+
+    def __init__(self, thunk):
+        self._thunk = thunk
+        self._items = None
+        self.pos = 0
+
+    @property
+    def items(self):
+        if self._items is None:
+            thunk, self._thunk = self._thunk, None
+            self._items = list(thunk())
+        return self._items
+
+
 class Obj:
     """Abstract object of a scenario: attributes and methods supplied by the rule."""
 
@@ -237,7 +255,7 @@ class Mat(Obj):
         self.rows = rows
         self.dtype = None
         self.methods = {
-            "flatten": lambda ev, call, args, kw: [x for r in self.rows for x in r],
+            "flatten": lambda ev, call, args, kw: Vec([x for r in self.rows for x in r]),
             "tolist": lambda ev, call, args, kw: [list(r) for r in self.rows],
             "transpose": lambda ev, call, args, kw: Mat([list(c) for c in zip(*self.rows)]) if self.rows else Mat([]),
             "copy": lambda ev, call, args, kw: Mat([list(r) for r in self.rows]),
@@ -249,9 +267,45 @@ class Mat(Obj):
             "any": lambda ev, call, args, kw: any(bool(x) for r in self.rows for x in r),
             "all": lambda ev, call, args, kw: all(bool(x) for r in self.rows for x in r),
             "sum": lambda ev, call, args, kw: self._sum(kw.get("axis", args[0] if args else None)),
-            "max": lambda ev, call, args, kw: max(x for r in self.rows for x in r),
-            "min": lambda ev, call, args, kw: min(x for r in self.rows for x in r),
+            "max": lambda ev, call, args, kw: self._reduce(max, kw.get("axis", args[0] if args else None), call),
+            "min": lambda ev, call, args, kw: self._reduce(min, kw.get("axis", args[0] if args else None), call),
+            "mean": lambda ev, call, args, kw: self._mean(kw.get("axis", args[0] if args else None), call),
+            "argsort": lambda ev, call, args, kw: self._argsort(kw.get("axis", args[0] if args else -1), call),
+            "nonzero": lambda ev, call, args, kw: (Vec([i for i, r in enumerate(self.rows) for x in r if x]),
+                                                   Vec([j for r in self.rows for j, x in enumerate(r) if x])),
         }
+
+    def _reduce(self, f, axis, node):
+        cells = [x for r in self.rows for x in r]
+        if any(isinstance(x, (Sym, Lin)) for x in cells):
+            raise Unsupported("reduction of symbolic values", node)
+        if not cells:
+            raise AbsRaise("ValueError", node)
+        if axis is None:
+            return f(cells)
+        if axis in (1, -1):
+            return Vec([f(r) for r in self.rows])
+        if axis == 0:
+            return Vec([f(c) for c in zip(*self.rows)])
+        raise Unsupported("reduction axis", node)
+
+    def _argsort(self, axis, node):
+        if axis in (1, -1):
+            return Mat([sorted(range(len(r)), key=lambda i, r=r: r[i]) for r in self.rows])
+        if axis == 0:
+            cols = [sorted(range(len(c)), key=lambda i, c=c: c[i]) for c in zip(*self.rows)]
+            return Mat([list(r) for r in zip(*cols)])
+        raise Unsupported("argsort axis", node)
+
+    def _mean(self, axis, node):
+        n_ = sum(len(r) for r in self.rows)
+        if axis is None:
+            return _arith(ast.Div(), self._sum(None), n_, node)
+        if axis in (1, -1):
+            return Vec([_arith(ast.Div(), x, len(self.rows[0]), node) for x in self._sum(1).vals])
+        if axis == 0:
+            return Vec([_arith(ast.Div(), x, len(self.rows), node) for x in self._sum(0).vals])
+        raise Unsupported("mean axis", node)
 
     def _astype(self, dtype, node):
         dt = norm_dtype(dtype)
@@ -280,7 +334,58 @@ class Mat(Obj):
             return (len(self.rows), len(self.rows[0]) if self.rows else 0)
         if name == "T":
             return Mat([list(c) for c in zip(*self.rows)])
+        if name == "size":
+            return sum(len(r) for r in self.rows)
+        if name == "ndim":
+            return 2
+        if name == "dtype":
+            return self.dtype or "float64"
         raise Unsupported(f"attribute {name} of a matrix", node)
+
+    def _mask_cells(self, mask, node):
+        if len(mask.rows) != len(self.rows) or any(len(a) != len(b) for a, b in zip(mask.rows, self.rows)):
+            raise AbsRaise("IndexError", node)          # boolean index did not match the indexed array
+        if not all(x is True or x is False for r in mask.rows for x in r):
+            raise Unsupported("matrix indexed by a non-boolean matrix", node)
+        return [(i, j) for i, r in enumerate(mask.rows) for j, x in enumerate(r) if x]
+
+    def _index_pairs(self, idx, node):
+        """(i, j) cells selected by m[rows, cols] when both are integer index arrays (or one is, the other an integer):
+        numpy pairs them element by element, broadcasting an array of one item; other lengths do not match."""
+        if not (isinstance(idx, tuple) and len(idx) == 2):
+            return None
+
+        def ints(x):
+            vals = x.vals if isinstance(x, Vec) else (x if isinstance(x, list) else None)
+            if vals is None or not all(isinstance(i, int) and not isinstance(i, bool) for i in vals):
+                return None
+            return list(vals)
+        r, c = idx
+        ri, ci = ints(r), ints(c)
+        if ri is None and ci is None:
+            return None
+        if ri is None:
+            if not (isinstance(r, int) and not isinstance(r, bool)):
+                return None
+            ri = [r] * len(ci)
+        if ci is None:
+            if not (isinstance(c, int) and not isinstance(c, bool)):
+                return None
+            ci = [c] * len(ri)
+        if len(ri) != len(ci):
+            if len(ri) == 1:
+                ri = ri * len(ci)
+            elif len(ci) == 1:
+                ci = ci * len(ri)
+            else:
+                raise AbsRaise("IndexError", node)          # shape mismatch: indexing arrays could not be broadcast
+        ncols = len(self.rows[0]) if self.rows else 0
+        out = []
+        for i, j in zip(ri, ci):
+            if not (-len(self.rows) <= i < len(self.rows) and -ncols <= j < ncols):
+                raise IndexOut((i, j), len(self.rows), node)
+            out.append((i % len(self.rows), j % ncols))
+        return out
 
     def abs_getitem(self, idx, node):
         if isinstance(idx, int) and not isinstance(idx, bool):
@@ -299,12 +404,23 @@ class Mat(Obj):
                     raise IndexOut(i, len(self.rows), node)
             return Mat([self.rows[i] for i in idx])
         ncols = len(self.rows[0]) if self.rows else 0
-        if isinstance(idx, tuple) and len(idx) == 2 and isinstance(idx[0], Vec) and isinstance(idx[1], Vec) \
-                and len(idx[0].vals) == len(idx[1].vals) and all(isinstance(i, int) and not isinstance(i, bool) for i in idx[0].vals + idx[1].vals):
-            for i, j in zip(idx[0].vals, idx[1].vals):
-                if not (0 <= i < len(self.rows) and 0 <= j < ncols):
-                    raise IndexOut((i, j), len(self.rows), node)
-            return Vec([self.rows[i][j] for i, j in zip(idx[0].vals, idx[1].vals)])       # fancy indexing copies
+        if isinstance(idx, Mat) and type(idx) is Mat:
+            cells = self._mask_cells(idx, node)
+            return Vec([self.rows[i][j] for i, j in cells])       # selected cells in row-major order (a copy)
+        if isinstance(idx, tuple) and len(idx) == 3 and idx[0] == "ix_":
+            ri, ci = idx[1], idx[2]
+            for i in ri:
+                if not -len(self.rows) <= i < len(self.rows):
+                    raise IndexOut(i, len(self.rows), node)
+            for j in ci:
+                if not -ncols <= j < ncols:
+                    raise IndexOut(j, ncols, node)
+            m = Mat([[self.rows[i][j] for j in ci] for i in ri])       # the block rows x columns (a copy)
+            m.dtype = self.dtype
+            return m
+        pair = self._index_pairs(idx, node)
+        if pair is not None:
+            return Vec([self.rows[i][j] for i, j in pair])       # fancy indexing copies (element-wise pairs, not a block)
         if isinstance(idx, Vec) and idx.vals and all(isinstance(x, bool) for x in idx.vals) and len(idx.vals) == len(self.rows):
             return Mat([list(r) for r, m in zip(self.rows, idx.vals) if m])               # boolean row mask copies
         if isinstance(idx, slice):
@@ -421,8 +537,27 @@ INT_DTYPE_RANGE = {"int8": (-128, 127), "uint8": (0, 255), "int16": (-32768, 327
                    "uint64": (0, 2 ** 64 - 1)}
 
 
+class DType(str):
+    """A numpy scalar type: its name as a dtype, and a converter when called (np.int64(x), np.float64(x))."""
+
+    def abs_call(self, args, kw, ev, node):
+        if len(args) != 1 or kw:
+            raise Unsupported("numpy scalar type called with other than one value", node)
+        v = args[0]
+        if isinstance(v, (Vec, Mat, Sym, Lin)):
+            raise Unsupported("numpy scalar type applied to an array", node)
+        if isinstance(v, str):
+            try:
+                v = float(v) if str(self).startswith("float") else int(v)
+            except ValueError:
+                raise AbsRaise("ValueError", node)
+        return check_dtype(str(self), v, node)
+
+
 def norm_dtype(dtype):
     """Name of a numpy dtype given as a string, a numpy scalar type name or a python type (int -> int64 ...)."""
+    if isinstance(dtype, DType):
+        dtype = str(dtype)
     if dtype is None or isinstance(dtype, str):
         return "bool_" if dtype == "bool" else dtype
     return {int: "int64", float: "float64", bool: "bool_"}.get(dtype)
@@ -462,6 +597,16 @@ def set_items(s) -> list:
     return items if SET_ORDER[0] == "asc" else items[::-1]
 
 
+def _b_len(x):
+    if hasattr(x, "abs_len"):
+        return x.abs_len()
+    if isinstance(x, (Sym, Lin)):
+        raise Unsupported("len of symbolic")
+    return len(x)
+
+
+# builtin functions that may be used as values (key=len, map(abs, ...)) or called on concrete values
+BUILTIN_FUNCS = {"len": _b_len, "abs": abs, "ord": ord, "chr": chr, "repr": repr, "id": id}
 BUILTIN_TYPES = {"list": list, "set": set, "dict": dict, "int": int, "float": float, "str": str, "tuple": tuple,
                  "bool": bool, "frozenset": frozenset}
 # methods of concrete containers that may be taken as values (key=d.get, map(s.strip, ...)): side-effect free ones only
@@ -472,7 +617,8 @@ VALUE_METHODS = {dict: ("get", "__getitem__", "__contains__", "keys", "values", 
                  str: ("strip", "lower", "upper", "isdigit", "startswith", "endswith", "split", "__contains__")}
 FALLBACK_CLASS_ATTR = None  # set by engines/resolve.install(project): class-level constants read through an instance
 FALLBACK_NAMES = None       # set by engines/resolve.install(project): module-level constants / class attributes by name
-FALLBACK_RESOLVER = None    # set by engines/resolve.install(project): resolves un-scripted calls to package functions
+FALLBACK_RESOLVER = None
+FALLBACK_MODULE_ATTR = None    # set by engines/resolve.install(project): resolves un-scripted calls to package functions
 
 
 NUMPY_PRINT_THRESHOLD = 1000     # numpy.get_printoptions()['threshold']: larger arrays are summarised with '...'
@@ -493,6 +639,20 @@ def render_array(v) -> str:
         if isinstance(x, Fraction):
             return item(float(x))
         raise Unsupported("text rendering of a symbolic value")
+
+    cells = v.vals if isinstance(v, Vec) else [x for r in v.rows for x in r]
+    frac_width = max((len(item(x).split(".")[1]) for x in cells if isinstance(x, (float, Fraction))), default=0)
+    is_float = any(isinstance(x, (float, Fraction)) for x in cells)
+    plain_item = item
+
+    def item(x):                                    # noqa: F811 - float arrays: one fraction width, padded on the right
+        if not is_float:
+            return plain_item(x)
+        t = plain_item(float(x) if not isinstance(x, bool) else x)
+        if "." not in t:
+            return t
+        whole, frac = t.split(".")
+        return whole + "." + frac.ljust(frac_width)
 
     def line(vals, summarise):
         if summarise and len(vals) > 2 * NUMPY_EDGE_ITEMS:
@@ -558,33 +718,99 @@ def _num(v):
     return isinstance(v, (int, float, Fraction)) and not isinstance(v, bool)
 
 
+def _arith_cell(op: ast.operator, x, y, node):
+    """One cell of an array operation: numpy's element semantics where they differ from python's scalars."""
+    if isinstance(x, bool) and isinstance(y, bool):
+        if isinstance(op, ast.Add):
+            return x or y               # boolean arrays: + is the logical or, * the logical and
+        if isinstance(op, ast.Mult):
+            return x and y
+        if isinstance(op, ast.Sub):
+            raise AbsRaise("TypeError", node)       # numpy boolean subtract is not supported
+    if isinstance(op, (ast.Div, ast.FloorDiv, ast.Mod)) and _num(x) and _num(y) and not isinstance(y, (Sym, Lin)) and y == 0 \
+            and not isinstance(x, (Sym, Lin)):
+        if isinstance(op, ast.Div):
+            return float("nan") if x == 0 else (float("inf") if x > 0 else float("-inf"))
+        return 0 if isinstance(x, int) and isinstance(y, int) else float("nan")       # numpy warns and gives 0 / nan
+    return _arith(op, x, y, node)
+
+
+def _matmul(a, b, node):
+    def dot(u, v):
+        if len(u) != len(v):
+            raise AbsRaise("ValueError", node)          # shapes not aligned
+        if u and all(isinstance(x, bool) for x in u) and all(isinstance(y, bool) for y in v):
+            return any(x and y for x, y in zip(u, v))   # boolean matmul: or of ands (it does not count)
+        tot = 0
+        for x, y in zip(u, v):
+            tot = _arith(ast.Add(), tot, _arith(ast.Mult(), (int(x) if isinstance(x, bool) else x),
+                                                (int(y) if isinstance(y, bool) else y), node), node)
+        return tot
+    am = a.rows if isinstance(a, Mat) else None
+    bm = b.rows if isinstance(b, Mat) else None
+    av = a.vals if isinstance(a, Vec) else (a if isinstance(a, list) else None)
+    bv = b.vals if isinstance(b, Vec) else (b if isinstance(b, list) else None)
+    if am is not None and bm is not None:
+        cols = [list(c) for c in zip(*bm)]
+        return Mat([[dot(r, c) for c in cols] for r in am])
+    if am is not None and bv is not None:
+        return Vec([dot(r, bv) for r in am])
+    if av is not None and bm is not None:
+        return Vec([dot(av, list(c)) for c in zip(*bm)])
+    if av is not None and bv is not None:
+        return dot(av, bv)
+    raise Unsupported("matrix product operands", node)
+
+
+def _rows2(x):
+    """A 2-D operand as rows: a matrix, a column vector (n x 1), a 1-D vector seen as one row (1 x n); else None."""
+    if isinstance(x, ColVec):
+        return [[v] for v in x.vals]
+    if isinstance(x, Mat) and type(x) is Mat:
+        return x.rows
+    if isinstance(x, Vec):
+        return [list(x.vals)]
+    return None
+
+
+def broadcast2(a, b, node):
+    """numpy broadcasting of two operands of which at least one is 2-D: each dimension is equal or 1."""
+    ar, br = _rows2(a), _rows2(b)
+    if ar is None:
+        ar = [[a]]
+    if br is None:
+        br = [[b]]
+    ra, ca = len(ar), (len(ar[0]) if ar else 0)
+    rb, cb = len(br), (len(br[0]) if br else 0)
+    if not (ra == rb or ra == 1 or rb == 1) or not (ca == cb or ca == 1 or cb == 1):
+        raise AbsRaise("ValueError", node)          # operands could not be broadcast together
+    r, c = max(ra, rb) if min(ra, rb) else 0, max(ca, cb) if min(ca, cb) else 0
+
+    def grow(rows, nr, nc):
+        rows = [list(x) * c if nc == 1 and c != 1 else x for x in rows]
+        return rows * r if nr == 1 and r != 1 else rows
+    return grow(ar, ra, ca)[:r], grow(br, rb, cb)[:r]
+
+
 def _arith(op: ast.operator, a, b, node):
-    if isinstance(a, ColVec) or isinstance(b, ColVec):
-        row, col = (a, b) if isinstance(b, ColVec) else (b, a)
-        if isinstance(row, Vec) and isinstance(op, ast.Mult):
-            return Mat([[_arith(op, x, w, node) for x in row.vals] for w in col.vals])
-        raise Unsupported("broadcast with a column vector", node)
-    if (isinstance(a, Mat) and type(a) is Mat) or (isinstance(b, Mat) and type(b) is Mat):
-        shape = a if isinstance(a, Mat) else b
-        if isinstance(a, Vec) or isinstance(b, Vec):
-            vec = a if isinstance(a, Vec) else b            # a row vector broadcast over the rows
-            if any(len(r) != len(vec.vals) for r in shape.rows):
-                raise Unsupported("matrix / vector shape mismatch", node)
-            ar = a.rows if isinstance(a, Mat) else [list(vec.vals) for _ in shape.rows]
-            br = b.rows if isinstance(b, Mat) else [list(vec.vals) for _ in shape.rows]
-        else:
-            ar = a.rows if isinstance(a, Mat) else [[a] * len(r) for r in shape.rows]
-            br = b.rows if isinstance(b, Mat) else [[b] * len(r) for r in shape.rows]
-        if len(ar) != len(br) or any(len(x) != len(y) for x, y in zip(ar, br)):
-            raise Unsupported("matrix shape mismatch", node)
-        return Mat([[_arith(op, x, y, node) for x, y in zip(r1, r2)] for r1, r2 in zip(ar, br)])
+    if isinstance(op, ast.MatMult):
+        return _matmul(a, b, node)
+    if isinstance(a, ColVec) or isinstance(b, ColVec) or (isinstance(a, Mat) and type(a) is Mat) \
+            or (isinstance(b, Mat) and type(b) is Mat):
+        ar, br = broadcast2(a, b, node)
+        return Mat([[_arith_cell(op, x, y, node) for x, y in zip(r1, r2)] for r1, r2 in zip(ar, br)])
     if isinstance(a, Vec) or isinstance(b, Vec):
         n = len(a) if isinstance(a, Vec) else len(b)
         av = a.vals if isinstance(a, Vec) else [a] * n
         bv = b.vals if isinstance(b, Vec) else [b] * n
         if len(av) != len(bv):
-            raise Unsupported("vector length mismatch", node)
-        return Vec([_arith(op, x, y, node) for x, y in zip(av, bv)])
+            if len(av) == 1:
+                av = av * len(bv)
+            elif len(bv) == 1:
+                bv = bv * len(av)
+            else:
+                raise AbsRaise("ValueError", node)      # operands could not be broadcast together
+        return Vec([_arith_cell(op, x, y, node) for x, y in zip(av, bv)])
     sym = isinstance(a, (Sym, Lin)) or isinstance(b, (Sym, Lin))
     if sym:
         la, lb = Lin.of(a), Lin.of(b)
@@ -653,10 +879,9 @@ def _arith(op: ast.operator, a, b, node):
 def _compare(op: ast.cmpop, a, b, node):
     if isinstance(op, (ast.Is, ast.IsNot)) and (a is None or b is None):
         return (a is b) if isinstance(op, ast.Is) else (a is not b)
-    if isinstance(a, Mat) or isinstance(b, Mat):
-        shape = (a if isinstance(a, Mat) else b)
-        ar = a.rows if isinstance(a, Mat) else [[a] * len(r) for r in shape.rows]
-        br = b.rows if isinstance(b, Mat) else [[b] * len(r) for r in shape.rows]
+    if isinstance(a, ColVec) or isinstance(b, ColVec) or (isinstance(a, Mat) and type(a) is Mat) \
+            or (isinstance(b, Mat) and type(b) is Mat):
+        ar, br = broadcast2(a, b, node)
         return Mat([[_compare(op, x, y, node) for x, y in zip(r1, r2)] for r1, r2 in zip(ar, br)])
     if isinstance(a, Vec) or isinstance(b, Vec):
         n = len(a) if isinstance(a, Vec) else len(b)
@@ -751,7 +976,9 @@ def inplace(cur, op: str, value, node):
         return True, cur
     if isinstance(cur, Vec) and op in ("+=", "-=", "*="):
         new = _arith(AUG_BINOP[op], cur, value, node)
-        cur.vals[:] = new.vals
+        if cur.dtype in INT_DTYPE_RANGE and any(isinstance(x, float) for x in new.vals):
+            raise AbsRaise("TypeError", node)       # numpy: cannot cast the float result back into the integer array
+        cur.vals[:] = [check_dtype(cur.dtype, x, node) for x in new.vals]
         return True, cur
     return False, None
 
@@ -803,6 +1030,8 @@ class Evaluator:
         self.opaque_ok = False
         self.while_bound = 10000
         self.sym_compare = None             # callable(left Lin, op, right Lin, node) -> bool for symbolic comparisons
+        self.deleted_names: Set[str] = set()
+        self.current_exc: List[str] = []
         self.strict_index = False           # negative indices into concrete lists are out-of-bounds (array semantics)
         self.attr_fallback = None           # callable(dotted) -> value | None for unknown dotted attribute reads
         self.opaque: Dict[str, ast.AST] = {}
@@ -811,8 +1040,27 @@ class Evaluator:
         self.runtime = None                 # instances.Runtime: resolves package names / classes / functions
         self.module = None                  # loader.Module the evaluated code belongs to (for name resolution)
 
+    def _default_value(self, fnode, j, expr, default_values):
+        """Default values are evaluated once, when the function is defined: a mutable default is shared by the calls.
+        (Immutable defaults are simply re-evaluated.)"""
+        if default_values is not None:
+            return default_values[j]
+        cache = getattr(fnode, "_csa_defaults", None)
+        if cache is None:
+            cache = {}
+            try:
+                fnode._csa_defaults = cache
+            except AttributeError:
+                pass
+        if j not in cache:
+            v = self.ev(expr)
+            if not isinstance(v, (list, dict, set)):
+                return v
+            cache[j] = v
+        return cache[j]
+
     def call_user(self, fnode: ast.FunctionDef, args: List[Any], kwargs: Optional[Dict[str, Any]] = None,
-                  skip_self: bool = False, closure: Optional[Dict[str, Any]] = None):
+                  skip_self: bool = False, closure: Optional[Dict[str, Any]] = None, default_values=None):
         """Abstractly evaluate a (package) function body on abstract arguments, sharing hooks and containers."""
         a = fnode.args
         names = [x.arg for x in list(a.posonlyargs) + list(a.args)]
@@ -831,7 +1079,7 @@ class Evaluator:
             else:
                 j = i - (len(names) - nd)
                 if 0 <= j < nd:
-                    env[nm] = self.ev(defaults[j])
+                    env[nm] = self._default_value(fnode, j, defaults[j], default_values)
                 else:
                     raise AbsRaise("TypeError", fnode)       # missing required argument
         if len(args) > len(names) and a.vararg is None:
@@ -864,6 +1112,13 @@ class Evaluator:
         finally:
             self.steps += child.steps
             self.effects.extend(child.effects)
+            if closure is not None:
+                # names the nested function declares nonlocal are bindings of the defining scope
+                for st_ in ast.walk(fnode):
+                    if isinstance(st_, ast.Nonlocal):
+                        for nm in st_.names:
+                            if nm in child.env:
+                                closure[nm] = child.env[nm]
         return ret
 
     # ------------------------------------------------------------------ expressions
@@ -883,6 +1138,8 @@ class Evaluator:
             return {"True": True, "False": False, "None": None}[n.id]
         if n.id in BUILTIN_TYPES and not (self.runtime is not None and self.runtime.lookup_name(self.module, n.id)[0]):
             return BUILTIN_TYPES[n.id]          # a builtin type used as a value (defaultdict(list), map(int, ...))
+        if n.id in BUILTIN_FUNCS and not (self.runtime is not None and self.runtime.lookup_name(self.module, n.id)[0]):
+            return BUILTIN_FUNCS[n.id]
         if self.runtime is not None:
             found, v = self.runtime.lookup_name(self.module, n.id)
             if found:
@@ -891,16 +1148,46 @@ class Evaluator:
             found, v = FALLBACK_NAMES(self, n.id, n)
             if found:
                 return v
+        if n.id in self.deleted_names:
+            raise AbsRaise("UnboundLocalError", n)      # read after `del` / after the `except ... as` block that bound it
         raise Unsupported(f"unbound name {n.id}", n)
 
+    def _display_items(self, elts):
+        out = []
+        for e in elts:
+            if isinstance(e, ast.Starred):
+                v = self.ev(e.value)
+                if hasattr(v, "abs_iter"):
+                    v = list(v.abs_iter())
+                elif isinstance(v, Vec):
+                    v = list(v.vals)
+                elif isinstance(v, (set, frozenset)):
+                    v = set_items(v)
+                elif isinstance(v, dict):
+                    v = list(v)
+                if not isinstance(v, (list, tuple, str)):
+                    raise Unsupported("starred item of an abstract value", e)
+                out.extend(v)
+            else:
+                out.append(self.ev(e))
+        return out
+
+    def _e_NamedExpr(self, n):
+        v = self.ev(n.value)
+        self.store(n.target, "=", v, n)
+        return v
+
     def _e_Tuple(self, n):
-        return tuple(self.ev(e) for e in n.elts)
+        return tuple(self._display_items(n.elts))
 
     def _e_List(self, n):
-        return [self.ev(e) for e in n.elts]
+        return self._display_items(n.elts)
 
     def _e_Set(self, n):
-        return {self.ev(e) for e in n.elts}
+        try:
+            return set(self._display_items(n.elts))
+        except TypeError:
+            raise AbsRaise("TypeError", n)          # unhashable member
 
     def _e_Dict(self, n):
         out = {}
@@ -910,28 +1197,64 @@ class Evaluator:
             out[self.ev(k)] = self.ev(v)
         return out
 
-    def _comp(self, generators, emit):
+    def _comp(self, generators, emit, first_iter=None, stop=None):
+        """Run a comprehension. Its loop variables live in their own scope: they neither leak into nor overwrite the
+        enclosing function's names. `first_iter`: the outermost iterable, already evaluated (generator expressions);
+        `stop()`: asked after each emitted item, True ends the iteration (short-circuiting consumers)."""
+        targets = set()
+        for g in generators:
+            for t in ast.walk(g.target):
+                if isinstance(t, ast.Name):
+                    targets.add(t.id)
+        missing = object()
+        saved = {nm: self.env.get(nm, missing) for nm in targets}
+
+        class _Stop(Exception):
+            pass
+
         def rec(i):
             if i == len(generators):
                 emit()
+                if stop is not None and stop():
+                    raise _Stop()
                 return
             g = generators[i]
-            it = self.ev(g.iter)
+            it = first_iter if (i == 0 and first_iter is not None) else self.ev(g.iter)
             if isinstance(it, dict):
                 it = list(it)
             if isinstance(it, (set, frozenset)):
                 it = set_items(it)
             if isinstance(it, Vec):
                 it = list(it.vals)
+            if isinstance(it, OnceIter) and stop is not None:
+                # consumed item by item: what a short-circuiting consumer leaves stays in the iterator
+                while True:
+                    ok, v = it.abs_next()
+                    if not ok:
+                        return
+                    self.store(g.target, "=", v, g.iter)
+                    if all(self.truth(self.ev(c), c) for c in g.ifs):
+                        rec(i + 1)
             if hasattr(it, "abs_iter"):
                 it = list(it.abs_iter())
+            if isinstance(it, str):
+                it = list(it)
             if not isinstance(it, (list, tuple)):
                 raise Unsupported("comprehension over abstract iterable", g.iter)
             for v in it:
                 self.store(g.target, "=", v, g.iter)
                 if all(self.truth(self.ev(c), c) for c in g.ifs):
                     rec(i + 1)
-        rec(0)
+        try:
+            rec(0)
+        except _Stop:
+            pass
+        finally:
+            for nm, v in saved.items():
+                if v is missing:
+                    self.env.pop(nm, None)
+                else:
+                    self.env[nm] = v
 
     def _e_ListComp(self, n):
         out = []
@@ -939,7 +1262,17 @@ class Evaluator:
         return out
 
     def _e_GeneratorExp(self, n):
-        return OnceIter(self._e_ListComp(n))       # a generator can be consumed once
+        first = self.ev(n.generators[0].iter)       # python evaluates the outermost iterable immediately
+
+        def produce():
+            out = []
+            self._comp(n.generators, lambda: out.append(self.ev(n.elt)), first_iter=first)
+            return out
+        g = LazyIter(produce)
+        g.node = n
+        g.first = first
+        g.owner = self
+        return g
 
     def _e_SetComp(self, n):
         out = set()
@@ -985,6 +1318,11 @@ class Evaluator:
             if isinstance(v, Vec):
                 return Vec([not x for x in v.vals])
             return not self.truth(v, n)
+        if isinstance(v, collections.Counter) and isinstance(n.op, (ast.USub, ast.UAdd)):
+            r = +v if isinstance(n.op, ast.UAdd) else -v
+            out = type(v)()
+            out.update(r)
+            return out
         if isinstance(n.op, ast.USub):
             if isinstance(v, (Sym, Lin)):
                 return -Lin.of(v)
@@ -1012,6 +1350,15 @@ class Evaluator:
         raise Unsupported(f"attribute {name} of {type(obj).__name__}", node)
 
     def truth(self, v, node=None) -> bool:
+        if isinstance(v, Vec) and not any(isinstance(x, (Sym, Lin)) for x in v.vals):
+            if len(v.vals) == 1:
+                return bool(v.vals[0])
+            raise AbsRaise("ValueError", node)      # the truth value of an array with several (or no) items is ambiguous
+        if isinstance(v, Mat) and type(v) is Mat:
+            cells = [x for r in v.rows for x in r]
+            if len(cells) == 1 and not isinstance(cells[0], (Sym, Lin)):
+                return bool(cells[0])
+            raise AbsRaise("ValueError", node)
         if isinstance(v, (Sym, Lin, Vec)):
             raise Unsupported(f"truth value of abstract {v!r}", node)
         return bool(v)
@@ -1032,7 +1379,15 @@ class Evaluator:
         return v
 
     def _e_BinOp(self, n):
-        return _arith(n.op, self.ev(n.left), self.ev(n.right), n)
+        left, right = self.ev(n.left), self.ev(n.right)
+        if isinstance(left, collections.Counter) and isinstance(right, collections.Counter) \
+                and isinstance(n.op, (ast.Add, ast.Sub, ast.BitAnd, ast.BitOr)):
+            r = {ast.Add: lambda a, b: a + b, ast.Sub: lambda a, b: a - b, ast.BitAnd: lambda a, b: a & b,
+                 ast.BitOr: lambda a, b: a | b}[type(n.op)](left, right)
+            out = type(left)()
+            out.update(r)
+            return out
+        return _arith(n.op, left, right, n)
 
     def _e_Compare(self, n):
         left = self.ev(n.left)
@@ -1064,8 +1419,11 @@ class Evaluator:
     def _e_Lambda(self, n):
         names = [a.arg for a in n.args.args]
         outer = self
+        defaults = [self.ev(d) for d in n.args.defaults]        # evaluated when the lambda is created
 
         def fn(*args):
+            if len(args) < len(names) and len(names) - len(args) <= len(defaults):
+                args = tuple(args) + tuple(defaults[len(defaults) - (len(names) - len(args)):])
             if len(args) != len(names):
                 raise Unsupported("lambda arity", n)
             child = Evaluator(dict(outer.env), outer.funcs, outer.max_steps)
@@ -1104,14 +1462,18 @@ class Evaluator:
         if isinstance(base, Vec):
             if isinstance(idx, tuple) and len(idx) == 2 and idx[0] == slice(None) and idx[1] is None:
                 return ColVec(base.vals)
+            if idx is None or (isinstance(idx, tuple) and len(idx) == 2 and idx[0] is None and idx[1] == slice(None)):
+                return Mat([list(base.vals)])       # v[newaxis, :]: one row
             if isinstance(idx, Vec) and idx.vals and all(isinstance(m, int) and not isinstance(m, bool) for m in idx.vals):
                 return Vec([base.vals[i] for i in idx.vals])
             if isinstance(idx, list) and all(isinstance(m, int) and not isinstance(m, bool) for m in idx):
                 return Vec([base.vals[i] for i in idx])
             if isinstance(idx, Vec):
+                if len(idx.vals) != len(base.vals):
+                    raise AbsRaise("IndexError", n)         # boolean index did not match the indexed array
                 return Vec([v for v, m in zip(base.vals, idx.vals) if m])
             if isinstance(idx, int) and not isinstance(idx, bool):
-                if not 0 <= idx < len(base.vals):
+                if not -len(base.vals) <= idx < len(base.vals) or (idx < 0 and self.strict_index):
                     raise IndexOut(idx, len(base.vals), n)
                 return base.vals[idx]
             raise Unsupported("subscript of vector", n)
@@ -1132,6 +1494,8 @@ class Evaluator:
             return base[idx]
         if isinstance(base, dict):
             if idx not in base:
+                if isinstance(base, collections.Counter):
+                    return 0                # a Counter counts 0 for a missing key (and does not insert it)
                 fac = getattr(base, "default_factory", None)
                 if fac is not None:         # collections.defaultdict: the missing key is created by the factory
                     base[idx] = self._apply(fac, [], n) if not isinstance(fac, type) else fac()
@@ -1148,6 +1512,10 @@ class Evaluator:
             v = self.attr_fallback(d)
             if v is not None:
                 return v
+        if d is not None and self.runtime is None and FALLBACK_MODULE_ATTR is not None:
+            found, v = FALLBACK_MODULE_ATTR(self, d)
+            if found:
+                return v
         base = self.ev(n.value)
         for ty, names in VALUE_METHODS.items():
             if type(base) is ty and n.attr in names:
@@ -1157,6 +1525,8 @@ class Evaluator:
                 return (len(base.vals),)
             if n.attr == "size":
                 return len(base.vals)
+            if n.attr == "ndim":
+                return 1
             if n.attr == "__getitem__":
                 return lambda i, _b=base: _b.vals[i]
             if n.attr == "dtype":
@@ -1292,8 +1662,22 @@ class Evaluator:
             if isinstance(v, (Sym, Lin, Vec)):
                 raise Unsupported("hash of symbolic", n)
             return hash(v)
+        if name in ("any", "all") and not n.keywords and len(n.args) == 1 and isinstance(n.args[0], ast.GeneratorExp) \
+                and name not in self.env:
+            # any / all stop at the first deciding item: later items are not evaluated
+            g = n.args[0]
+            want = name == "any"
+            hit = []
+
+            def emit():
+                if self.truth(self.ev(g.elt), g.elt) == want:
+                    hit.append(True)
+            self._comp(g.generators, emit, first_iter=self.ev(g.generators[0].iter), stop=lambda: bool(hit))
+            return want if hit else not want
         if name in ("frozenset", "any", "all", "sum", "iter") and not n.keywords and len(n.args) == 1:
             v = self.ev(n.args[0])
+            if name == "iter" and isinstance(v, OnceIter):
+                return v                    # iter() of an iterator is the iterator itself
             if hasattr(v, "abs_iter"):
                 v = list(v.abs_iter())
             if isinstance(v, Vec):
@@ -1328,10 +1712,13 @@ class Evaluator:
                 if not isinstance(seq, (list, tuple)) or set(kw) - {"key", "reverse"}:
                     raise Unsupported("sorted arguments", n)
                 keyf = kw.get("key")
-                keys = [keyf(x) if keyf else x for x in seq]
+                keys = [self._apply(keyf, [x], n) if keyf else x for x in seq]
                 if any(isinstance(k, (Sym, Lin, Vec)) for k in keys):
                     raise Unsupported("sort key is symbolic", n)
-                order = sorted(range(len(seq)), key=lambda i: keys[i], reverse=bool(kw.get("reverse", False)))
+                try:
+                    order = sorted(range(len(seq)), key=lambda i: keys[i], reverse=bool(kw.get("reverse", False)))
+                except TypeError:
+                    raise AbsRaise("TypeError", n)
                 return [seq[i] for i in order]
             if n.keywords and name in ("min", "max"):
                 kw = {k.arg: self.ev(k.value) for k in n.keywords}
@@ -1364,9 +1751,18 @@ class Evaluator:
                 raise Unsupported("len of abstract value", n)
             if name in ("min", "max"):
                 vals = args[0] if len(args) == 1 else args
+                if hasattr(vals, "abs_iter"):
+                    vals = list(vals.abs_iter())
+                if isinstance(vals, (set, frozenset)):
+                    vals = set_items(vals)
                 if any(isinstance(v, (Sym, Lin, Vec)) for v in vals):
                     raise Unsupported("min/max of symbolic values", n)
-                return min(vals) if name == "min" else max(vals)
+                try:
+                    return min(vals) if name == "min" else max(vals)
+                except ValueError:
+                    raise AbsRaise("ValueError", n)         # empty sequence
+                except TypeError:
+                    raise AbsRaise("TypeError", n)          # values that cannot be ordered
             if name == "abs":
                 if isinstance(args[0], (Sym, Lin, Vec)):
                     raise Unsupported("abs of symbolic", n)
@@ -1412,8 +1808,13 @@ class Evaluator:
                     args[0] = list(args[0])
                 if hasattr(args[0], "abs_iter"):
                     args[0] = list(args[0].abs_iter())
-                if isinstance(args[0], (list, tuple, set, frozenset)):
-                    return {"list": list, "tuple": tuple, "sorted": sorted, "set": set}[name](args[0])
+                if isinstance(args[0], (set, frozenset)) and name != "set":
+                    args[0] = set_items(args[0])        # the iteration order given to sets (see SET_ORDER)
+                if isinstance(args[0], (list, tuple, set, frozenset, str)):
+                    try:
+                        return {"list": list, "tuple": tuple, "sorted": sorted, "set": set}[name](args[0])
+                    except TypeError:
+                        raise AbsRaise("TypeError", n)      # values that cannot be ordered / hashed
                 raise Unsupported(f"{name} of abstract", n)
             if name == "enumerate":
                 if isinstance(args[0], Mat) and type(args[0]) is Mat:
@@ -1606,6 +2007,20 @@ class Evaluator:
                         return
             if isinstance(base, Mat):
                 idx = self.ev(target.slice)
+                if isinstance(idx, Mat) and type(idx) is Mat and type(base) is Mat:
+                    cells = base._mask_cells(idx, stmt)
+                    vals = value.vals if isinstance(value, Vec) else (list(value) if isinstance(value, (list, tuple)) else None)
+                    if vals is None:
+                        vals = [value] * len(cells)
+                    elif len(vals) != len(cells):
+                        if len(vals) == 1:
+                            vals = vals * len(cells)
+                        else:
+                            raise AbsRaise("ValueError", stmt)      # cannot assign n values to m selected cells
+                    news = [v_ if op == "=" else _arith(AUG_BINOP[op], base.rows[i][j], v_, stmt) for (i, j), v_ in zip(cells, vals)]
+                    for (i, j), v_ in zip(cells, news):
+                        base.rows[i][j] = check_dtype(base.dtype, v_, stmt)
+                    return
                 if isinstance(idx, tuple) and len(idx) == 2:
                     ri, ci = idx
                     rows_i = list(ri.vals) if isinstance(ri, Vec) else (list(ri) if isinstance(ri, list) else None)
@@ -1619,23 +2034,39 @@ class Evaluator:
                         vals = value.vals if isinstance(value, Vec) else (list(value) if isinstance(value, (list, tuple)) else [value] * len(rows_i))
                         if len(vals) != len(rows_i):
                             raise AbsRaise("ValueError", stmt)
-                        for r_, c_, v_ in zip(rows_i, cols_i, vals):
+                        for r_, c_ in zip(rows_i, cols_i):
                             if not (isinstance(r_, int) and isinstance(c_, int) and 0 <= r_ < len(base.rows) and 0 <= c_ < len(base.rows[r_])):
                                 raise IndexOut((r_, c_), len(base.rows), stmt)
-                            base.rows[r_][c_] = v_ if op == "=" else _arith(AUG_BINOP[op], base.rows[r_][c_], v_, stmt)
-                            base.rows[r_][c_] = check_dtype(base.dtype, base.rows[r_][c_], stmt)
+                        # numpy reads all the selected cells, computes, then writes: a cell selected twice by an
+                        # augmented store is updated once (no accumulation)
+                        news = [v_ if op == "=" else _arith(AUG_BINOP[op], base.rows[r_][c_], v_, stmt)
+                                for r_, c_, v_ in zip(rows_i, cols_i, vals)]
+                        for r_, c_, v_ in zip(rows_i, cols_i, news):
+                            base.rows[r_][c_] = check_dtype(base.dtype, v_, stmt)
                         return
                     if isinstance(ri, int) and not isinstance(ri, bool) and cols_i is not None and 0 <= ri < len(base.rows):
                         vals = value.vals if isinstance(value, Vec) else (list(value) if isinstance(value, (list, tuple)) else [value] * len(cols_i))
                         if len(vals) != len(cols_i):
                             raise AbsRaise("ValueError", stmt)
-                        for c_, v_ in zip(cols_i, vals):
+                        for c_ in cols_i:
                             if not (isinstance(c_, int) and 0 <= c_ < len(base.rows[ri])):
                                 raise IndexOut((ri, c_), len(base.rows), stmt)
-                            base.rows[ri][c_] = v_ if op == "=" else _arith(AUG_BINOP[op], base.rows[ri][c_], v_, stmt)
-                            base.rows[ri][c_] = check_dtype(base.dtype, base.rows[ri][c_], stmt)
+                        news = [v_ if op == "=" else _arith(AUG_BINOP[op], base.rows[ri][c_], v_, stmt) for c_, v_ in zip(cols_i, vals)]
+                        for c_, v_ in zip(cols_i, news):
+                            base.rows[ri][c_] = check_dtype(base.dtype, v_, stmt)
                         return
                 raise Unsupported("matrix row store", stmt)
+            if base is not None and hasattr(base, "abs_setitem") and not isinstance(base, (Sym, Lin)):
+                base.abs_setitem(self.ev(target.slice), op, value, self, stmt)
+                return
+        if isinstance(target, ast.Subscript):
+            try:
+                b_ = self.ev(target.value)
+            except Unsupported:
+                b_ = None
+            if isinstance(b_, Obj) and not isinstance(b_, (Sym, Lin)) and not hasattr(b_, "abs_store_effect"):
+                # a concrete object of the abstract state: a store that is not modelled is refused, never skipped
+                raise Unsupported(f"store into {b_!r} with this index", stmt)
         # alias resolution: a name bound to a Sym is a *view* of the symbol (cost_elem1_elem2 = matrix[e1][e2])
         key = self._alias_key(target)
         self.effects.append(Effect(key, op, value, stmt))
@@ -1655,19 +2086,47 @@ class Evaluator:
                 base[idx] = value
             else:
                 if idx not in base:
-                    raise Unsupported("augmented store to missing key", stmt)
-                base[idx] = _arith(binop, base[idx], value, stmt)
+                    fac = getattr(base, "default_factory", None)
+                    if isinstance(base, collections.Counter):
+                        base[idx] = 0
+                    elif fac is not None:
+                        base[idx] = self._apply(fac, [], stmt) if not isinstance(fac, type) else fac()
+                    else:
+                        raise AbsRaise("KeyError", stmt)
+                done, _obj = inplace(base[idx], op, value, stmt)
+                if not done:
+                    base[idx] = _arith(binop, base[idx], value, stmt)
             return
         seq = base.vals if isinstance(base, Vec) else base
+        if isinstance(idx, list) and isinstance(base, Vec):
+            idx = Vec(list(idx))
         if isinstance(idx, Vec):
-            if not isinstance(base, Vec) or len(idx.vals) != len(seq):
+            if not isinstance(base, Vec):
                 raise Unsupported("mask store", stmt)
-            for i, m in enumerate(idx.vals):
-                if m is True or m is False:
-                    if m:
-                        seq[i] = value if op == "=" else _arith(binop, seq[i], value, stmt)
+            dt = base.dtype
+            if idx.vals and all(m is True or m is False for m in idx.vals):
+                if len(idx.vals) != len(seq):
+                    raise AbsRaise("IndexError", stmt)      # boolean index did not match the indexed array
+                sel = [i for i, m in enumerate(idx.vals) if m]
+            elif all(isinstance(m, int) and not isinstance(m, bool) for m in idx.vals):
+                for m in idx.vals:
+                    if not -len(seq) <= m < len(seq):
+                        raise IndexOut(m, len(seq), stmt)
+                sel = [m % len(seq) for m in idx.vals] if seq else []
+            else:
+                raise Unsupported("non-boolean mask", stmt)
+            vals = value.vals if isinstance(value, Vec) else (list(value) if isinstance(value, (list, tuple)) else None)
+            if vals is not None and len(vals) != len(sel):
+                if len(vals) == 1:
+                    vals = vals * len(sel)
                 else:
-                    raise Unsupported("non-boolean mask", stmt)
+                    raise AbsRaise("ValueError", stmt)      # shape mismatch between the selection and the values
+            if vals is None:
+                vals = [value] * len(sel)
+            # numpy reads the selected cells, computes, then writes: an index present twice is updated once
+            news = [v_ if op == "=" else _arith(binop, seq[i], v_, stmt) for i, v_ in zip(sel, vals)]
+            for i, v_ in zip(sel, news):
+                seq[i] = check_dtype(dt, v_, stmt)
             return
         if isinstance(idx, bool) or not isinstance(idx, int):
             raise Unsupported(f"store index {idx!r}", stmt)
@@ -1774,6 +2233,25 @@ class Evaluator:
                 if not broke:
                     self.block(st.orelse)
                 return
+            live = it if isinstance(it, (dict, set)) else None
+            live_len = len(it) if live is not None else None
+            if isinstance(it, list):
+                # python iterates over the list object itself, by position: items removed or added by the body count
+                broke = False
+                pos = 0
+                while pos < len(it):
+                    self.store(st.target, "=", it[pos], st)
+                    pos += 1
+                    try:
+                        self.block(st.body)
+                    except _Break:
+                        broke = True
+                        break
+                    except _Continue:
+                        continue
+                if not broke:
+                    self.block(st.orelse)
+                return
             if isinstance(it, (set, frozenset)):
                 it = set_items(it)
             elif isinstance(it, dict):
@@ -1787,6 +2265,8 @@ class Evaluator:
             it = list(it)
             broke = False
             for v in it:
+                if live is not None and len(live) != live_len:
+                    raise AbsRaise("RuntimeError", st)      # dictionary / set changed size during iteration
                 self.store(st.target, "=", v, st)
                 try:
                     self.block(st.body)
@@ -1795,6 +2275,8 @@ class Evaluator:
                     break
                 except _Continue:
                     continue
+            if not broke and live is not None and len(live) != live_len:
+                raise AbsRaise("RuntimeError", st)
             if not broke:
                 self.block(st.orelse)
             return
@@ -1821,6 +2303,10 @@ class Evaluator:
             return
         if isinstance(st, ast.Raise):
             name = "Exception"
+            if st.exc is None:
+                if self.current_exc:
+                    raise AbsRaise(self.current_exc[-1], st)       # bare raise: the exception being handled
+                raise AbsRaise("RuntimeError", st)                 # no active exception to re-raise
             if st.exc is not None:
                 e = st.exc.func if isinstance(st.exc, ast.Call) else st.exc
                 name = _dotted(e) or "Exception"
@@ -1832,14 +2318,24 @@ class Evaluator:
                     except Unsupported:
                         v = None
                     cls_ = getattr(v, "cls", None)
-                    if cls_ is not None and hasattr(cls_, "name"):
+                    if isinstance(v, Obj) and isinstance(v.name, str) and v.name.startswith("EXC:"):
+                        name = v.name[4:]               # the exception a handler bound with `as`
+                    elif cls_ is not None and hasattr(cls_, "name"):
                         name = cls_.name
                     elif hasattr(v, "name") and isinstance(getattr(v, "name"), str) and v.name.startswith("external "):
                         name = v.name.split(" ", 1)[1]
                     elif isinstance(v, type) and issubclass(v, BaseException):
                         name = v.__name__
+                elif head in self.deleted_names and isinstance(e, ast.Name):
+                    name = "UnboundLocalError"
             raise AbsRaise(name, st)
         if isinstance(st, ast.Assert):
+            try:
+                ok = self.truth(self.ev(st.test), st.test)
+            except Unsupported:
+                return                      # a condition the evaluator cannot decide is not checked
+            if not ok:
+                raise AbsRaise("AssertionError", st)
             return
         if isinstance(st, (ast.FunctionDef,)):
             self.env[st.name] = self._local_function(st)
@@ -1848,6 +2344,7 @@ class Evaluator:
             for t in st.targets:
                 if isinstance(t, ast.Name):
                     self.env.pop(t.id, None)
+                    self.deleted_names.add(t.id)
                 elif isinstance(t, ast.Subscript):
                     base = self.ev(t.value)
                     idx = self.ev(t.slice)
@@ -1870,13 +2367,23 @@ class Evaluator:
         if isinstance(st, ast.Try):
             try:
                 try:
-                    self.block(st.body)
+                    try:
+                        self.block(st.body)
+                    except IndexOut as io:
+                        raise AbsRaise("IndexError", io.node)       # the code's own handlers see an IndexError
                 except AbsRaise as exc:
                     for h in st.handlers:
                         if self._handler_matches(h, exc.exc_name):
                             if h.name:
                                 self.env[h.name] = Obj("EXC:" + exc.exc_name)
-                            self.block(h.body)
+                            self.current_exc.append(exc.exc_name)
+                            try:
+                                self.block(h.body)
+                            finally:
+                                self.current_exc.pop()
+                                if h.name:
+                                    self.env.pop(h.name, None)      # python deletes the name when the handler ends
+                                    self.deleted_names.add(h.name)
                             break
                     else:
                         raise
@@ -1904,6 +2411,12 @@ class Evaluator:
         for a in n.args:
             if isinstance(a, ast.Starred):
                 v = self.ev(a.value)
+                if hasattr(v, "abs_iter"):
+                    v = list(v.abs_iter())
+                elif isinstance(v, Vec):
+                    v = list(v.vals)
+                elif isinstance(v, (set, frozenset)):
+                    v = set_items(v)
                 if not isinstance(v, (list, tuple)):
                     raise Unsupported("star argument", n)
                 args.extend(v)
@@ -1965,14 +2478,20 @@ class Evaluator:
                       "isalpha", "isnumeric", "isalnum", "isspace", "zfill", "title", "capitalize", "format",
                       "rsplit", "center", "ljust", "rjust", "isdecimal", "removeprefix", "removesuffix"),
                 tuple: ("index", "count"),
+                collections.Counter: ("most_common", "subtract", "elements", "total"),
             }
+            if type(base).__name__ == "DequeObj" and attr in ("appendleft", "popleft", "extendleft", "rotate"):
+                try:
+                    return True, getattr(base, attr)(*args)
+                except IndexError:
+                    raise AbsRaise("IndexError", call)
             for ty, names in table.items():
                 if isinstance(base, ty) and attr in names:
                     try:
                         r = getattr(base, attr)(*args)
                     except (KeyError, IndexError, ValueError, TypeError) as exc:
                         raise AbsRaise(type(exc).__name__, call)
-                    if attr in ("items", "keys", "values"):
+                    if attr in ("items", "keys", "values", "elements"):
                         r = list(r)
                     return True, r
         return False, None
@@ -1999,9 +2518,23 @@ class Evaluator:
             for x in base.vals:
                 tot = _arith(ast.Add(), tot, (1 if x is True else (0 if x is False else x)), call)
             return True, tot
-        if attr == "reshape" and len(args) == 2 and args[0] == -1 and isinstance(args[1], int) and args[1] > 0 \
-                and len(base.vals) % args[1] == 0:
-            return True, Mat([base.vals[i:i + args[1]] for i in range(0, len(base.vals), args[1])])
+        if attr == "reshape":
+            shape = tuple(args[0]) if len(args) == 1 and isinstance(args[0], (tuple, list)) else tuple(args)
+            if len(shape) == 1 and shape[0] in (-1, len(base.vals)):
+                return True, Vec.slice_copy(list(base.vals)) if False else Vec(list(base.vals))
+            if len(shape) == 2 and all(isinstance(x, int) for x in shape):
+                r, c = shape
+                n_ = len(base.vals)
+                if r == -1 and c > 0 and n_ % c == 0:
+                    r = n_ // c
+                elif c == -1 and r > 0 and n_ % r == 0:
+                    c = n_ // r
+                if r >= 0 and c >= 0 and r * c == n_:
+                    m = Mat([base.vals[i * c:(i + 1) * c] for i in range(r)])
+                    m.dtype = base.dtype
+                    return True, m
+                raise AbsRaise("ValueError", call)      # cannot reshape array of this size
+            raise Unsupported("reshape to this shape", call)
         if attr == "astype":
             dt = norm_dtype(args[0] if args else None)
             out = Vec([check_dtype(dt, x, call) for x in base.vals])
@@ -2009,12 +2542,40 @@ class Evaluator:
             return True, out
         if attr in ("tobytes", "tostring") and not args:
             return True, ("bytes",) + tuple(base.vals)
-        if attr in ("max", "min") and not args and base.vals:
+        if attr in ("max", "min") and not args:
+            if not base.vals:
+                raise AbsRaise("ValueError", call)      # zero-size array to reduction operation
+            if any(isinstance(x, (Sym, Lin)) for x in base.vals):
+                raise Unsupported(f"{attr} of symbolic values", call)
             return True, (max if attr == "max" else min)(base.vals)
         if attr in ("any", "all") and not args:
             return True, (any if attr == "any" else all)(bool(x) for x in base.vals)
         if attr == "argsort" and not args:
             return True, Vec(sorted(range(len(base.vals)), key=lambda i: base.vals[i]))
+        if attr == "sort" and not args:
+            if base.frozen:
+                raise Unsupported("in-place sort of a slice view (not modelled)", call)
+            if any(isinstance(x, (Sym, Lin)) for x in base.vals):
+                raise Unsupported("sort of symbolic values", call)
+            base.vals.sort()
+            return True, None
+        if attr == "mean" and not args and base.vals:
+            tot = 0
+            for x in base.vals:
+                tot = _arith(ast.Add(), tot, (1 if x is True else (0 if x is False else x)), call)
+            return True, _arith(ast.Div(), tot, len(base.vals), call)
+        if attr in ("argmin", "argmax") and not args and base.vals:
+            f_ = min if attr == "argmin" else max
+            best = f_(base.vals)
+            return True, base.vals.index(best)          # first occurrence, like numpy
+        if attr == "cumsum" and not args:
+            out, tot = [], 0
+            for x in base.vals:
+                tot = _arith(ast.Add(), tot, x, call)
+                out.append(tot)
+            return True, Vec(out)
+        if attr == "nonzero" and not args:
+            return True, (Vec([i for i, x in enumerate(base.vals) if x]),)
         raise Unsupported(f"method {attr} of a vector", call)
 
     def _apply(self, f, args, node):
@@ -2026,11 +2587,12 @@ class Evaluator:
 
     def _local_function(self, st: ast.FunctionDef):
         outer = self
+        defaults = [self.ev(d) for d in st.args.defaults]       # evaluated when the def statement runs
 
         class LocalFunc:
             def abs_call(self_inner, args, kw, ev, node):
                 # closure: free variables resolve in the defining environment as it is at call time
-                return outer.call_user(st, list(args), kw, closure=outer.env)
+                return outer.call_user(st, list(args), kw, closure=outer.env, default_values=defaults)
 
             def __call__(self_inner, *args):
                 return self_inner.abs_call(list(args), {}, outer, st)
@@ -2045,7 +2607,7 @@ class Evaluator:
                 return Sym(target.id)
         return self.ev(value)
 
-    EXC_PARENTS = {"ModuleNotFoundError": "ImportError", "ImportError": "Exception", "KeyError": "LookupError",
+    EXC_PARENTS = {"UnboundLocalError": "NameError", "ModuleNotFoundError": "ImportError", "ImportError": "Exception", "KeyError": "LookupError",
                    "IndexError": "LookupError", "LookupError": "Exception", "ValueError": "Exception",
                    "TypeError": "Exception", "NameError": "Exception", "ZeroDivisionError": "ArithmeticError",
                    "ArithmeticError": "Exception", "NotImplementedError": "RuntimeError", "RuntimeError": "Exception",
@@ -2094,6 +2656,16 @@ class Evaluator:
                 found, _val = FALLBACK_RESOLVER(self, call, name)      # a helper of the package called for its effects
                 if found:
                     return
+            handled, _ = self._vec_call(call)
+            if handled:
+                return
+            try:
+                recv = self.ev(call.func.value)
+            except Unsupported:
+                recv = NotImplemented
+            if not isinstance(recv, (Sym, Lin)):
+                self._e_Call(call)          # the call is evaluated (or refused as unsupported), never silently skipped
+                return
             key = self._alias_key(call.func.value)
             args = tuple(self.ev(a) for a in call.args)
             self.effects.append(Effect(key, "call:" + call.func.attr, args, st))
